@@ -74,6 +74,8 @@ Proof.
     + discriminate H.
 Qed.
 
+Local Opaque compress_loop lookup_from last_label hash_label.
+
 (* with the range check of pending/C19-compressor-pointer-range.diff in place,
    every offset compress_name hands out fits a 14-bit pointer together with the
    12-octet header, and `addr + 0xC00C` cannot overflow *)
